@@ -8,6 +8,7 @@
 package simapi
 
 import (
+	"bytes"
 	"encoding/json"
 	"fmt"
 	"sort"
@@ -745,8 +746,13 @@ func applyPatch(res Res, cur runtime.Object, pt types.PatchType, patch []byte) (
 		out, err = strategicpatch.StrategicMergePatch(orig, patch, newObj(res))
 	case types.MergePatchType:
 		var po, oo map[string]interface{}
-		if err = json.Unmarshal(patch, &po); err == nil {
-			if err = json.Unmarshal(orig, &oo); err == nil {
+		dec := func(b []byte, v interface{}) error { // keep 64-bit integers exact
+			d := json.NewDecoder(bytes.NewReader(b))
+			d.UseNumber()
+			return d.Decode(v)
+		}
+		if err = dec(patch, &po); err == nil {
+			if err = dec(orig, &oo); err == nil {
 				out, err = json.Marshal(mergeMaps(oo, po))
 			}
 		}
